@@ -1,5 +1,6 @@
 """Contracts for multidecoder/node.py  (C03, C04, C19, C20, C01)."""
 from pyvc.contract import Ghost, Loop, contract, spec
+from pyvc.rt import child_at, nchildren  # noqa: F401  (run-time meaning of the spec vocabulary)
 
 # ------------------------------------------------------------------------------------------------ Node.__init__
 contract(
@@ -108,4 +109,24 @@ contract(
         )
     },
     ensures={"substitutes-exactly": "result == flat_from(self, 0, 0)"},
+)
+
+# ------------------------------------------------------------------------------------------------ C19 clean-tree lemma
+from pyvc.contract import lemma  # noqa: E402
+
+lemma(
+    "C19-clean-tree-flattens-to-its-value",
+    props=["C19"],
+    vars={"n": "Node", "k": "int"},
+    hyps=[
+        "0 <= k <= nchildren(n)",
+        # induction hypothesis on the remaining children (measure nchildren(n) - k)
+        "implies(k < nchildren(n), flat_from(n, k + 1, 0) == n.value)",
+        # structural induction hypothesis: the k-th child is itself a clean tree
+        "implies(k < nchildren(n), flat_from(child_at(n, k), 0, 0) == child_at(n, k).value)",
+        # Clean(n): the value of every child equals the text it covers
+        "implies(k < nchildren(n), child_at(n, k).value == n.value[child_at(n, k).start : child_at(n, k).end])",
+    ],
+    goal="flat_from(n, k, 0) == n.value",
+    notes="induction step of: Clean(n) ==> flat_from(n, k, 0) == n.value for all k; the well-founded order (tree height, then nchildren - k) is the meta-level part",
 )
